@@ -51,6 +51,7 @@ CASES = {
     'layout':   {'entries': 2, 'alternatives': 1, 'no_version': True, 'archqual': True, 'ws_styles': 4, 'empty_entries': True, 'trailing_comma': True},
     'parts':    {'entries': 1, 'alternatives': 1, 'archs': 2, 'profile_groups': 1, 'profile_terms': 2, 'version_kinds': 2, 'ws_styles': 2},
     'parts-layout': {'entries': 1, 'alternatives': 1, 'archs': 1, 'profile_groups': 1, 'profile_terms': 2, 'no_version': True, 'ws_styles': 5},
+    'same-name': {'entries': 1, 'alternatives': 2, 'archs': 1, 'negation': False, 'no_version': True, 'ws_style': 5},
     'qualifier-layout': {'entries': 1, 'alternatives': 2, 'archqual': True, 'archqual_ws': True, 'version_kinds': 1, 'ws_styles': 5},
     'substvar': {'entries': 2, 'alternatives': 1, 'substvars': True, 'version_kinds': 1, 'ws_styles': 1},
 }
